@@ -209,7 +209,7 @@ fn walk_spec(d: &ExecutableDocument, set: &ex::SelectionSet, all: bool, seen: &m
 // ---------------------------------------------------------------- oracle: valid documents
 
 /// the variables of a value.  `hidden`: those inside an object literal given where a custom scalar is expected
-/// (`value_of_correct_type` accepts any object for a custom scalar without looking inside)
+/// (before fix 1d09582 `value_of_correct_type` accepted such an object without looking inside; kept apart only for the message)
 fn value_vars(v: &ast::Value, custom: bool, in_obj: bool, out: &mut BTreeSet<String>, hidden: &mut BTreeSet<String>) {
     match v {
         ast::Value::Variable(n) => { if custom && in_obj { hidden.insert(n.to_string()); } else { out.insert(n.to_string()); } }
@@ -363,7 +363,7 @@ fn one_on(ctx: &mut Ctx, views: &[View], defs: &[Def], family: &str, only: Optio
                 }
                 for u in hidden {
                     if !op.variables.iter().any(|vd| vd.name.as_str() == u) {
-                        ctx.fail("valid-undefined-variable-in-custom-scalar-object", &input, &format!("valid document: operation {:?} uses `${u}` (inside an object literal given to a custom scalar) without defining it", op.name.as_ref().map(|n| n.as_str())));
+                        ctx.fail("valid-undefined-variable", &input, &format!("valid document: operation {:?} uses `${u}` (inside an object literal given to a custom scalar) without defining it", op.name.as_ref().map(|n| n.as_str())));
                     }
                 }
             }
